@@ -67,3 +67,7 @@ Print Assumptions C08f_fixed_prefix.
 Print Assumptions C08f_fixed_on_bound.
 Print Assumptions C08f_free_component.
 Print Assumptions C08f_zero_breakpoint_untouched.
+
+(* Non-vacuity / witnesses by computation (Proofs/FCauchyProofs.v): the loop exiting on a tied breakpoint with recorded oracle
+   answers (the regression case of the repaired mask defect), NumPy's argsort on NaNs, ties and signed zeros. *)
+Example C08f_nonvacuous := (conj exit_on_tied_breakpoint argsort_with_nan_and_ties).
